@@ -43,7 +43,7 @@ func (fc *FunctionCall) Evaluate(dc *context.DataContext, Vars map[string]reflec
 	} else {
 		av, err := fc.FunctionArgs.Evaluate(dc, Vars)
 		if err != nil {
-			return reflect.ValueOf(nil), err
+			return reflect.ValueOf(nil), errors.New(fmt.Sprintf("line %d, column %d, code: %s, %+v", fc.LineNum, fc.Column, fc.Code, err))
 		}
 		argumentValues = av
 	}
